@@ -33,6 +33,19 @@ def judge(res, results, label=''):
             first = X.parse(full)
             if first is None:
                 continue    # no head at all: C05's finding
+            # the head as a CLIENT reads it (RFC 9112 2.2: a line ends at LF, a CR before it is dropped; the first empty line ends the head): a
+            # value that carries a bare LF ends the head early and pushes the headers behind it into the body
+            lines = full.split(b'\n')
+            cv = []
+            for ln in lines[1:]:
+                ln = ln[:-1] if ln.endswith(b'\r') else ln
+                if not ln: break
+                n, sep, v = ln.partition(b':')
+                if sep: cv.append((n.decode('latin1').strip(), v.decode('latin1').strip()))
+            badcv = X.judge_headers(dict(status=first['status'], headers=cv)) if not X.judge_headers(first) else []
+            if badcv:
+                res.fail('missing-or-duplicate:client-view:' + badcv[0], c.line[:300], str(cv[:3])[:200], None,
+                         f'C10: read the way a client reads it (lines end at LF) the head of the status {first["status"]} response ends after {len(cv)} header lines and lacks {badcv}; entry {c.entry}; request {c.raw[:120]!r}')
             resps = [first] + (X.wire_responses(full)[1:] if unambiguous or full is not seen[0] else [])
             for k, resp in enumerate(resps):
                 key = (resp['status'], tuple(resp['headers']))
